@@ -1,6 +1,162 @@
 package drivers
 
-import "verif/harness/trace"
+import (
+	"fmt"
 
-func apuGenSamples(c *Ctx, w *trace.Writer)                      {}
-func apuRerunSamples(c *Ctx, w *trace.Writer, s *trace.Scenario) {}
+	"verif/harness/machine"
+	"verif/harness/trace"
+)
+
+// ---- C21: generator step times -----------------------------------------------------------
+
+type genJob struct {
+	id     string
+	kind   string // sq1 sq2 wave noise
+	a, b   int    // frequency, or r and s
+	narrow int
+	cycles int
+}
+
+func genRun(j genJob) *trace.Scenario {
+	m := machine.New(intROM, machine.Options{NoCPU: true})
+	kind := j.kind
+	if kind == "sq1" || kind == "sq2" {
+		kind = "sq"
+	}
+	sc := &trace.Scenario{ID: j.id}
+	val := func() int {
+		g := m.A.VerifGen()
+		switch j.kind {
+		case "sq1":
+			return int(g.Duty1)
+		case "sq2":
+			return int(g.Duty2)
+		case "wave":
+			return int(g.WavePos)
+		}
+		return int(g.LFSR) & 0x7fff
+	}
+	perr := machine.Try(func() {
+		m.M.Write(0xff26, 0x00)
+		m.M.Write(0xff26, 0x80)
+		// let the hardware run a little so that the trigger does not fall on a special phase only
+		for i := 0; i < 3+j.a%7; i++ {
+			m.Hardware()
+		}
+		switch j.kind {
+		case "sq1":
+			m.M.Write(0xff10, 0x00)
+			m.M.Write(0xff12, 0xf0)
+			m.M.Write(0xff13, uint8(j.a&0xff))
+			m.M.Write(0xff14, uint8(0x80|j.a>>8))
+		case "sq2":
+			m.M.Write(0xff17, 0xf0)
+			m.M.Write(0xff18, uint8(j.a&0xff))
+			m.M.Write(0xff19, uint8(0x80|j.a>>8))
+		case "wave":
+			m.M.Write(0xff1a, 0x80)
+			m.M.Write(0xff1c, 0x20)
+			m.M.Write(0xff1d, uint8(j.a&0xff))
+			m.M.Write(0xff1e, uint8(0x80|j.a>>8))
+		case "noise":
+			m.M.Write(0xff21, 0xf0)
+			m.M.Write(0xff22, uint8(j.b<<4|j.narrow<<3|j.a))
+			m.M.Write(0xff23, 0x80)
+		}
+		v0 := val()
+		sc.Reset = []any{kind, j.a, j.b, j.narrow, v0, j.cycles, j.kind}
+		prev := v0
+		for c := 1; c <= j.cycles; c++ {
+			m.Hardware()
+			if v := val(); v != prev {
+				sc.Ev = append(sc.Ev, []any{c, v})
+				prev = v
+			}
+		}
+	})
+	if perr != "" {
+		if sc.Reset == nil {
+			sc.Reset = []any{kind, j.a, j.b, j.narrow, 0, j.cycles, j.kind}
+		}
+		sc.Ev = append(sc.Ev, []any{"panic", perr})
+	}
+	if sc.Ev == nil {
+		sc.Ev = [][]any{}
+	}
+	return sc
+}
+
+func genJobs(c *Ctx) []genJob {
+	rng := c.Rand(2101)
+	var jobs []genJob
+	var freqs []int
+	if c.Thorough() {
+		for f := 0; f < 2048; f++ {
+			freqs = append(freqs, f)
+		}
+	} else {
+		freqs = []int{0, 1, 2, 1023, 1024, 2000, 2040, 2045, 2046, 2047}
+		for len(freqs) < 48 {
+			freqs = append(freqs, rng.Intn(2048))
+		}
+	}
+	for _, k := range []string{"sq1", "sq2", "wave"} {
+		for _, f := range freqs {
+			p := 2048 - f // machine cycles per square step; half of it per wave step
+			cyc := 6 * p
+			if cyc < 80 {
+				cyc = 80
+			}
+			if cyc > 13000 {
+				cyc = 13000
+			}
+			jobs = append(jobs, genJob{id: fmt.Sprintf("gen-%s-%d", k, f), kind: k, a: f, cycles: cyc})
+		}
+	}
+	// noise: every NR43 value with s <= 13
+	for s := 0; s <= 13; s++ {
+		for r := 0; r < 8; r++ {
+			for narrow := 0; narrow < 2; narrow++ {
+				if !c.Thorough() && s > 5 && (r+s+narrow)%5 != 0 {
+					continue
+				}
+				d := 8
+				if r > 0 {
+					d = 16 * r
+				}
+				per := d << uint(s) / 4 // cycles per LFSR clock
+				cyc := per*5 + 40
+				if !c.Thorough() && cyc > 300000 {
+					cyc = per*2 + per/2 + 40
+				}
+				jobs = append(jobs, genJob{id: fmt.Sprintf("gen-noise-r%d-s%d-n%d", r, s, narrow), kind: "noise", a: r, b: s, narrow: narrow, cycles: cyc})
+			}
+		}
+	}
+	// the LFSR output over more than two full periods (fastest clock)
+	jobs = append(jobs, genJob{id: "gen-noise-full15", kind: "noise", a: 0, b: 0, narrow: 0, cycles: 2*32767*2 + 500})
+	jobs = append(jobs, genJob{id: "gen-noise-full7", kind: "noise", a: 0, b: 0, narrow: 1, cycles: 2*127*2*3 + 100})
+	jobs = append(jobs, genJob{id: "gen-noise-full15b", kind: "noise", a: 1, b: 0, narrow: 0, cycles: 4*32767 + 500})
+	return jobs
+}
+
+func apuGenSamples(c *Ctx, w *trace.Writer) {
+	if c.Want("gen") {
+		jobs := genJobs(c)
+		res := make([]*trace.Scenario, len(jobs))
+		parallel(len(jobs), func(i int) { res[i] = genRun(jobs[i]) })
+		for _, s := range res {
+			w.Put(s)
+		}
+	}
+	apuGenStream(c, w)
+}
+
+func apuRerunSamples(c *Ctx, w *trace.Writer, s *trace.Scenario) {
+	r, ok := s.Reset.([]any)
+	if ok && len(r) == 7 {
+		w.Put(genRun(genJob{id: s.ID, kind: trace.Str(r[6]), a: trace.Int(r[1]), b: trace.Int(r[2]), narrow: trace.Int(r[3]), cycles: trace.Int(r[5])}))
+		return
+	}
+	apuRerunStream(c, w, s)
+}
